@@ -3021,13 +3021,24 @@ fn fill_chords(
         | Action::ReleaseState(_)
         | Action::OneShotIgnoreEventsTicks(_)
         | Action::Custom(_) => None,
-        Action::HoldTap(&hta @ HoldTapAction { tap, hold, .. }) => {
+        Action::HoldTap(
+            &hta @ HoldTapAction {
+                tap,
+                hold,
+                timeout_action,
+                ..
+            },
+        ) => {
             let new_tap = fill_chords(chord_groups, &tap, s);
             let new_hold = fill_chords(chord_groups, &hold, s);
-            if new_tap.is_some() || new_hold.is_some() {
+            // The timeout action (a copy of the hold action unless given explicitly) holds its own
+            // copy of the unresolved chord placeholder.
+            let new_timeout = fill_chords(chord_groups, &timeout_action, s);
+            if new_tap.is_some() || new_hold.is_some() || new_timeout.is_some() {
                 Some(Action::HoldTap(s.a.sref(HoldTapAction {
                     hold: new_hold.unwrap_or(hold),
                     tap: new_tap.unwrap_or(tap),
+                    timeout_action: new_timeout.unwrap_or(timeout_action),
                     ..hta
                 })))
             } else {
